@@ -334,7 +334,11 @@ impl<'s> Scheduler<'s> {
                             self.ready.push(coroutine);
                         }
                     }
-                    CoroutineState::Cancelled => {}
+                    CoroutineState::Cancelled => {
+                        // cancelled from inside (the cancel signal): a request that was also
+                        // recorded for the scheduler is served
+                        _ = CANCEL_COROUTINES.remove(&co_id);
+                    }
                     CoroutineState::Complete(result) => {
                         assert!(
                             results.insert(co_id, Ok(result)).is_none(),
